@@ -16,10 +16,42 @@ pub struct Recorder {
     pub lines: Vec<String>,
     pub enabled: bool,
     pub n_events: usize,
+    /// per endpoint: something other than rd/wr/fl was logged since the last logged rd / fl
+    pub dirty_rd: [bool; 2],
+    pub dirty_fl: [bool; 2],
 }
 
 impl Recorder {
+    /// Transport callback events are only informative (knowledge points) when something
+    /// happened since the previous one; redundant ones are dropped to keep traces small.
+    pub fn log_io(&mut self, ep: usize, kind: &str, v: Value, always: bool) {
+        match kind {
+            "rd" => {
+                if !always && !self.dirty_rd[ep] {
+                    return;
+                }
+                self.dirty_rd[ep] = false;
+            }
+            "fl" => {
+                if !always && !self.dirty_fl[ep] {
+                    return;
+                }
+                self.dirty_fl[ep] = false;
+            }
+            _ => {
+                if !always {
+                    return;
+                }
+            }
+        }
+        self.n_events += 1;
+        if self.enabled {
+            self.lines.push(v.to_string());
+        }
+    }
     pub fn log(&mut self, v: Value) {
+        self.dirty_rd = [true, true];
+        self.dirty_fl = [true, true];
         self.n_events += 1;
         if self.enabled {
             self.lines.push(v.to_string());
@@ -105,7 +137,7 @@ pub type Shared = Arc<Mutex<World>>;
 impl World {
     pub fn new() -> World {
         World {
-            rec: Recorder { lines: vec![], enabled: true, n_events: 0 },
+            rec: Recorder { lines: vec![], enabled: true, n_events: 0, dirty_rd: [true, true], dirty_fl: [true, true] },
             dirs: [Dir::new(true), Dir::new(false)],
             real: [true, true],
             step: 0,
@@ -154,23 +186,23 @@ impl AsyncRead for SimIo {
         let ep = self.ep;
         let d = self.rdir();
         if let Some(k) = g.dirs[d].rerr {
-            g.log(json!({"t": "rd", "ep": EP[ep], "n": -2}));
+            g.rec.log_io(ep, "rd", json!({"t": "rd", "ep": EP[ep], "n": -2}), true);
             return Poll::Ready(Err(io::Error::new(k, "injected read error")));
         }
         if g.dirs[d].readable.is_empty() {
             if g.dirs[d].eof && g.dirs[d].inflight.is_empty() {
-                g.log(json!({"t": "rd", "ep": EP[ep], "n": 0}));
+                g.rec.log_io(ep, "rd", json!({"t": "rd", "ep": EP[ep], "n": 0}), true);
                 return Poll::Ready(Ok(()));
             }
             g.dirs[d].rwaker = Some(cx.waker().clone());
-            g.log(json!({"t": "rd", "ep": EP[ep], "n": -1}));
+            g.rec.log_io(ep, "rd", json!({"t": "rd", "ep": EP[ep], "n": -1}), false);
             return Poll::Pending;
         }
         let n = buf.remaining().min(g.dirs[d].rmax).min(g.dirs[d].readable.len());
         let bytes: Vec<u8> = g.dirs[d].readable.drain(..n).collect();
         buf.put_slice(&bytes);
         g.dirs[d].total_r += n as u64;
-        g.log(json!({"t": "rd", "ep": EP[ep], "n": n}));
+        g.rec.log_io(ep, "rd", json!({"t": "rd", "ep": EP[ep], "n": n}), false);
         let frames = g.dirs[d].in_dec.feed(&bytes);
         for (_, j) in frames {
             g.dirs[d].in_frames += 1;
@@ -187,11 +219,11 @@ impl SimIo {
         let ep = self.ep;
         let d = self.wdir();
         if let Some(k) = g.dirs[d].werr {
-            g.log(json!({"t": "wr", "ep": EP[ep], "n": -2}));
+            g.rec.log_io(ep, "wr", json!({"t": "wr", "ep": EP[ep], "n": -2}), true);
             return Poll::Ready(Err(io::Error::new(k, "injected write error")));
         }
         if g.dirs[d].wzero {
-            g.log(json!({"t": "wr", "ep": EP[ep], "n": 0}));
+            g.rec.log_io(ep, "wr", json!({"t": "wr", "ep": EP[ep], "n": 0}), true);
             return Poll::Ready(Ok(0));
         }
         let mut n = data.len().min(g.dirs[d].wmax);
@@ -200,7 +232,7 @@ impl SimIo {
         }
         if n == 0 && !data.is_empty() {
             g.dirs[d].wwaker = Some(cx.waker().clone());
-            g.log(json!({"t": "wr", "ep": EP[ep], "n": -1}));
+            g.rec.log_io(ep, "wr", json!({"t": "wr", "ep": EP[ep], "n": -1}), false);
             return Poll::Pending;
         }
         if let Some(b) = g.dirs[d].wbudget.as_mut() {
@@ -208,7 +240,7 @@ impl SimIo {
         }
         g.dirs[d].inflight.extend(&data[..n]);
         g.dirs[d].total_w += n as u64;
-        g.log(json!({"t": "wr", "ep": EP[ep], "n": n}));
+        g.rec.log_io(ep, "wr", json!({"t": "wr", "ep": EP[ep], "n": n}), false);
         let frames = g.dirs[d].out_dec.feed(&data[..n]);
         for (_, j) in frames {
             g.dirs[d].out_frames += 1;
@@ -242,16 +274,16 @@ impl AsyncWrite for SimIo {
         let ep = self.ep;
         let d = self.wdir();
         if let Some(k) = g.dirs[d].werr {
-            g.log(json!({"t": "fl", "ep": EP[ep], "ok": false}));
+            g.rec.log_io(ep, "fl", json!({"t": "fl", "ep": EP[ep], "ok": false}), true);
             return Poll::Ready(Err(io::Error::new(k, "injected write error")));
         }
         if g.dirs[d].flush_pending > 0 {
             g.dirs[d].flush_pending -= 1;
-            g.log(json!({"t": "fl", "ep": EP[ep], "ok": false}));
+            g.rec.log_io(ep, "fl", json!({"t": "fl", "ep": EP[ep], "ok": false}), false);
             cx.waker().wake_by_ref();
             return Poll::Pending;
         }
-        g.log(json!({"t": "fl", "ep": EP[ep], "ok": true}));
+        g.rec.log_io(ep, "fl", json!({"t": "fl", "ep": EP[ep], "ok": true}), false);
         Poll::Ready(Ok(()))
     }
     fn poll_shutdown(self: Pin<&mut Self>, _cx: &mut Context<'_>) -> Poll<io::Result<()>> {
